@@ -48,7 +48,8 @@ LINES_PER_FILE = 400
 SHARD = 40000
 MAX_CLANG = 80
 MAX_SHRINK = 300
-JAVA_ENV = {"JAVA_TOOL_OPTIONS": "-Xss64m"}
+# deep recursion of the spec's parser/printer needs stack; few GC threads: several TLC processes run side by side
+JAVA_ENV = {"JAVA_TOOL_OPTIONS": "-Xss64m -XX:ParallelGCThreads=2"}
 
 PRELUDE = {
     "c": "struct S { int m; };\nint f();\n",
